@@ -511,9 +511,9 @@ func scenC06(x *Exec) {
 	for i := 0; i < nsteps; i++ {
 		k := "send"
 		if p.AMode == "adversary" {
-			k = []string{"send", "send", "send", "sleep", "pause", "resume", "down", "up", "blackhole", "unblackhole", "closeafter", "removeA"}[g.Pick(12)]
+			k = []string{"send", "send", "send", "sleep", "pause", "resume", "down", "up", "blackhole", "unblackhole", "closeafter", "removeA", "readdressA", "moveB"}[g.Pick(14)]
 		} else {
-			k = []string{"send", "send", "sleep"}[g.Pick(3)]
+			k = []string{"send", "send", "sleep", "send", "send", "sleep", "moveB"}[g.Pick(7)]
 		}
 		st := c06Step{Kind: k}
 		switch k {
@@ -597,13 +597,61 @@ func scenC06(x *Exec) {
 		var handed [][]byte
 		adversarial := false
 		removed, bgRunning, bgDone := false, 0, 0
+		readdressed, movedB := false, false
+		var epB2 *Endpoint
+		keyB2 := destCfg{Addr: "10.1.1.3:2003"}.key("r")
+		// positions in the route: A first, B second.  They are known rather than asked for: every question to the route needs
+		// its lock, which a hanging admin call may hold for good
+		idxB := func() int { return 1 }
 		for _, st := range p.Steps {
 			switch st.Kind {
+			case "readdressA":
+				// modDest addr=...: the bad endpoint's destination is pointed at an address that swallows the TCP handshake.
+				// The admin call hangs in the dial for as long as it likes; hand-offs must not notice.
+				if removed || readdressed {
+					continue
+				}
+				readdressed, adversarial = true, true
+				nw.SetBlackhole("10.1.1.9:2003", true)
+				s.Spawn("admin-readdress", "admin", "relay1", func() {
+					rt.UpdateDestination(0, map[string]string{"addr": "10.1.1.9:2003"})
+					simrt.Yield("readdress-returned")
+				})
+				s.Probe("c06.a_readdressed_to_black_hole")
+			case "moveB":
+				// the healthy destination is pointed at another healthy endpoint while traffic flows: what the old connection
+				// still holds must reach the old endpoint, everything later the new one, and every line one of them (or a counter)
+				if movedB || readdressed || removed {
+					// a readdress that hangs keeps the route's lock, so no further admin command gets through; a removal of A
+					// that may still be in progress would make B's position in the route ambiguous
+					continue
+				}
+				movedB = true
+				epB2 = NewEndpoint(s, nw, "10.1.1.3:2003")
+				epB2.Start()
+				ib := idxB()
+				moved := false
+				s.Spawn("admin-move", "admin", "relay1", func() {
+					rt.UpdateDestination(ib, map[string]string{"addr": "10.1.1.3:2003"})
+					simrt.Yield("move-returned")
+					moved = true
+					cond.Broadcast()
+				})
+				for i, n := 0, 1+g.Intn(30); i < n; i++ {
+					l := mkLine("c06", len(handed), 30+g.Intn(60), g)
+					handed = append(handed, l)
+					s.GuardBegin("endpoint", 20000)
+					rt.Dispatch(l)
+					simrt.Yield("dispatch-returned")
+					s.GuardEnd()
+				}
+				cond.Wait(func() bool { return moved }, time.Now().Add(time.Minute))
+				s.Probe("c06.b_moved_to_another_endpoint")
 			case "removeA":
 				// the bad endpoint's destination is deleted at runtime while a second dispatcher keeps handing lines to the
 				// route: whatever state the connection is in (wedged in a write to a black hole, say), no hand-off may get
 				// stuck.  The admin call itself may take as long as it likes.
-				if removed {
+				if removed || readdressed {
 					continue
 				}
 				removed = true
@@ -677,32 +725,43 @@ func scenC06(x *Exec) {
 		epA.Cond.Broadcast()
 		nw.SetBlackhole(p.A.Addr, false)
 		simrt.Sleep(3*time.Second + 2*time.Duration(p.B.FlushMs+p.A.FlushMs)*time.Millisecond)
-		countRecv := func(ep *Endpoint) (int, map[string]int) {
+		countRecv := func(eps ...*Endpoint) (int, map[string]int) {
 			seen := map[string]int{}
 			n := 0
-			for _, ec := range ep.Conns {
-				ls, _ := ec.Lines()
-				for _, l := range ls {
-					seen[string(l)]++
-					n++
+			for _, ep := range eps {
+				if ep == nil {
+					continue
+				}
+				for _, ec := range ep.Conns {
+					ls, _ := ec.Lines()
+					for _, l := range ls {
+						seen[string(l)]++
+						n++
+					}
 				}
 			}
 			return n, seen
 		}
+		slowB := func() int64 {
+			return counter("dest="+keyB+".unit=Metric.action=drop.reason=slow_conn") + counter("dest="+keyB2+".unit=Metric.action=drop.reason=slow_conn")
+		}
 		dl := time.Now().Add(5*time.Minute + 4*time.Duration(len(handed))*epA.ReadDelay)
 		for time.Now().Before(dl) {
-			nb, _ := countRecv(epB)
+			nb, _ := countRecv(epB, epB2)
 			na, _ := countRecv(epA)
 			okA := p.AMode != "healthy" || int64(na)+counter("dest="+keyA+".unit=Metric.action=drop.reason=slow_conn") >= int64(len(handed))
-			if okA && int64(nb)+counter("dest="+keyB+".unit=Metric.action=drop.reason=slow_conn") >= int64(len(handed)) {
+			if okA && int64(nb)+slowB() >= int64(len(handed)) {
 				break
 			}
 			simrt.Sleep(200 * time.Millisecond)
 		}
 		simrt.Quiesce()
-		check := func(name, key string, ep *Endpoint) bool {
-			n, seen := countRecv(ep)
+		check := func(name, key string, eps ...*Endpoint) bool {
+			n, seen := countRecv(eps...)
 			drop := counter("dest=" + key + ".unit=Metric.action=drop.reason=slow_conn")
+			if name == "B" {
+				drop = slowB()
+			}
 			for _, l := range handed {
 				if seen[string(l)] > 1 {
 					s.Fail(prop+":duplicate", "healthy endpoint %s received %s %d times", name, Short(l), seen[string(l)])
@@ -725,7 +784,7 @@ func scenC06(x *Exec) {
 			}
 			return true
 		}
-		if !check("B", keyB, epB) {
+		if !check("B", keyB, epB, epB2) {
 			return
 		}
 		switch p.AMode {
